@@ -11,7 +11,8 @@ theorem splitCrlf_cons2 (a b : UInt8) (t : List UInt8) :
       else match splitCrlf (b :: t) with
         | none => none
         | some (l, r) => some (a :: l, r) := by
-  rw [splitCrlf]
+  conv => lhs; unfold splitCrlf
+  rfl
 
 theorem splitCrlf_append (l rest : List UInt8) (h : splitCrlf l = none) :
     splitCrlf (l ++ CR :: LF :: rest) = some (l, rest) := by
@@ -218,16 +219,16 @@ theorem sizeOfLine_ok (st : List Char) (ext : List UInt8) (hne : st.isEmpty = fa
   rw [hf, Utf8.decode_ascii _ a1, a2]
   simp only [trim_hex st hh]
   unfold parseHexUsize
-  have hplus : (match st with | '+' :: rest => rest | _ => st) = st := by
+  have hplus : stripPlus st = st := by
     cases st with
     | nil => rfl
     | cons c t =>
-      have : isHex c = true := by simp only [List.all_cons, Bool.and_eq_true] at hh; exact hh.1
+      have hcx : isHex c = true := by simp only [List.all_cons, Bool.and_eq_true] at hh; exact hh.1
+      have : c ≠ '+' := by
+        intro h; subst h; simp [isHex] at hcx
+      unfold stripPlus
       split
-      · rename_i heq
-        injection heq with h1 h2
-        subst h1
-        simp [isHex] at this
+      · rename_i heq; injection heq with h1 h2; exact absurd h1 this
       · rfl
   simp only [hplus, hne, hh, hv]
   simp
@@ -258,10 +259,11 @@ theorem line_noCrlf (st : List Char) (ext : List UInt8) (hh : st.all isHex = tru
       omega
     simp only [Utf8.asciiBytes, List.map_cons, List.cons_append] at iht ⊢
     cases hrest : (List.map (fun c => c.toNat.toUInt8) t ++ ext) with
-    | nil => simp [splitCrlf]
+    | nil => exact splitCrlf_one _
     | cons d r =>
       rw [hrest] at iht
-      simp [splitCrlf, hcr, iht]
+      rw [splitCrlf_cons2, iht]
+      simp [hcr]
 
 theorem go_chunk (c : Chunk) (hc : chunkOk c = true) (n : Nat) (rest out : List UInt8) :
     go Dev.fixed (n + 1) (encodeChunk c ++ rest) out = go Dev.fixed n rest (out ++ c.data) := by
@@ -277,7 +279,8 @@ theorem go_chunk (c : Chunk) (hc : chunkOk c = true) (n : Nat) (rest out : List 
   simp only [go, hsplit, hsize, h3]
   have e1 : ¬ (c.data.length == 0) = true := by simpa using hne
   have e2 : ¬ (c.data.length + 2 ≥ usizeBound) := by omega
-  have e3 : ¬ ((c.data ++ [CR, LF] ++ rest).length < c.data.length + 2) := by simp; omega
+  have e3 : ¬ ((c.data ++ [CR, LF] ++ rest).length < c.data.length + 2) := by
+    simp only [List.length_append, List.length_cons, List.length_nil]; omega
   have e4 : (List.drop c.data.length (c.data ++ [CR, LF] ++ rest)).take 2 = [CR, LF] := by
     simp [List.append_assoc]
   have e5 : List.drop (c.data.length + 2) (c.data ++ [CR, LF] ++ rest) = rest := by
@@ -316,9 +319,166 @@ theorem dechunk_prefix (chunks : List Chunk) (hc : chunks.all chunkOk = true) (t
   unfold dechunk
   have hlen := flatMap_encode_length_ge chunks
   have : (chunks.flatMap encodeChunk ++ t).length + 1 = chunks.length + ((chunks.flatMap encodeChunk).length - chunks.length + t.length + 1) := by
-    simp; omega
+    rw [List.length_append]; omega
   rw [this, go_chunks chunks hc, go_out]
   rw [go_fuel Dev.fixed _ (t.length + 1) t [] (by omega) (by omega)]
   simp
+
+/-! ### the last-chunk line -/
+
+theorem hexVal_zeros_aux : ∀ (l : List Char), l.all (· == '0') = true → l.foldl (fun acc c => acc * 16 + hexDigitVal c) 0 = 0
+  | [], _ => rfl
+  | c :: t, h => by
+    simp only [List.all_cons, Bool.and_eq_true, beq_iff_eq] at h
+    obtain ⟨rfl, ht⟩ := h
+    have : (0 * 16 + hexDigitVal '0') = 0 := by decide
+    simp only [List.foldl_cons, this]
+    exact hexVal_zeros_aux t (by simpa using ht)
+
+theorem zeros_hex (l : List Char) (h : l.all (· == '0') = true) : l.all isHex = true := by
+  rw [List.all_eq_true] at h ⊢
+  intro c hc
+  have : c = '0' := by simpa using h c hc
+  subst this; decide
+
+/-- a last-chunk line (`0…0 [;ext] CRLF`) ends the body, whatever follows it -/
+theorem dechunk_last (zeros : List Char) (ext tail : List UInt8) (hz : zerosOk zeros = true) (he : extOk ext = true) :
+    dechunk Dev.fixed (Utf8.asciiBytes zeros ++ ext ++ [CR, LF] ++ tail) = .some [] := by
+  simp only [zerosOk, extOk, Bool.and_eq_true, Bool.not_eq_true', Option.isNone_iff_eq_none] at hz he
+  have hh := zeros_hex zeros hz.2
+  have hv : hexVal zeros = 0 := hexVal_zeros_aux zeros hz.2
+  have hline := line_noCrlf zeros ext hh he.1 he.2
+  have hsplit : splitCrlf (Utf8.asciiBytes zeros ++ ext ++ [CR, LF] ++ tail) = some (Utf8.asciiBytes zeros ++ ext, tail) := by
+    have := splitCrlf_append (Utf8.asciiBytes zeros ++ ext) tail hline
+    simpa [List.append_assoc] using this
+  have hsize := sizeOfLine_ok zeros ext hz.1 hh he.1 (by rw [hv]; decide)
+  unfold dechunk
+  simp only [go, hsplit, hsize, hv]
+  simp
+
+/-! ### malformed size fields -/
+
+theorem classify_lead_lo {n need acc lo hi : Nat} (h : Utf8.classify n = .lead need acc lo hi) : 0x80 ≤ lo ∧ need ≠ 0 := by
+  unfold Utf8.classify at h
+  repeat' split at h
+  all_goals first | (injection h with h1 h2 h3 h4; omega) | (simp at h)
+
+theorem mem_decodeGo (b : UInt8) (hb : b.toNat < 0x80) :
+    ∀ (l : List UInt8) (need acc lo hi : Nat) (cs : List Char), (need ≠ 0 → 0x80 ≤ lo) →
+      Utf8.decodeGo l need acc lo hi = some cs → b ∈ l → Utf8.byteChar b ∈ cs := by
+  intro l
+  induction l with
+  | nil => intro _ _ _ _ _ _ _ hm; simp at hm
+  | cons x rest ih =>
+    intro need acc lo hi cs hlo hd hm
+    unfold Utf8.decodeGo at hd
+    simp only at hd
+    split at hd
+    · -- need = 0
+      split at hd
+      · rename_i c hcl
+        cases hr : Utf8.decodeGo rest 0 0 0 0 with
+        | none => rw [hr] at hd; simp at hd
+        | some cs' =>
+          rw [hr] at hd; simp at hd; subst hd
+          rcases List.mem_cons.1 hm with rfl | hm'
+          · rw [Utf8.classify_ascii _ hb] at hcl
+            injection hcl with hcl
+            subst hcl
+            exact List.mem_cons_self
+          · exact List.mem_cons_of_mem _ (ih 0 0 0 0 cs' (by simp) hr hm')
+      · rename_i need' acc' lo' hi' hcl
+        have hx : b ≠ x := by
+          intro h; subst h; rw [Utf8.classify_ascii _ hb] at hcl; simp at hcl
+        have hm' : b ∈ rest := by
+          rcases List.mem_cons.1 hm with h | h
+          · exact absurd h hx
+          · exact h
+        exact ih need' acc' lo' hi' cs (fun _ => (classify_lead_lo hcl).1) hd hm'
+      · simp at hd
+    · rename_i hneed
+      have hneed' : need ≠ 0 := by simpa using hneed
+      split at hd
+      · rename_i hrange
+        have hx : b ≠ x := by
+          intro h; subst h
+          have := hlo hneed'
+          simp only [Bool.and_eq_true, decide_eq_true_eq] at hrange
+          omega
+        have hm' : b ∈ rest := by
+          rcases List.mem_cons.1 hm with h | h
+          · exact absurd h hx
+          · exact h
+        split at hd
+        · cases hr : Utf8.decodeGo rest 0 0 0 0 with
+          | none => rw [hr] at hd; simp at hd
+          | some cs' =>
+            rw [hr] at hd; simp at hd; subst hd
+            exact List.mem_cons_of_mem _ (ih 0 0 0 0 cs' (by simp) hr hm')
+        · exact ih _ _ _ _ cs (fun _ => by omega) hd hm'
+      · simp at hd
+
+theorem mem_dropWhile {α} (p : α → Bool) (c : α) (hc : p c = false) : ∀ l : List α, c ∈ l → c ∈ l.dropWhile p
+  | [], h => by simp at h
+  | a :: t, h => by
+    by_cases hpa : p a = true
+    · have hne : c ≠ a := by intro e; subst e; rw [hc] at hpa; simp at hpa
+      have : c ∈ t := by
+        rcases List.mem_cons.1 h with e | e
+        · exact absurd e hne
+        · exact e
+      simp only [List.dropWhile, hpa]
+      exact mem_dropWhile p c hc t this
+    · have : p a = false := by simpa using hpa
+      simp only [List.dropWhile, this]
+      exact h
+
+theorem mem_trim (c : Char) (hc : isWs c = false) (l : List Char) (h : c ∈ l) : c ∈ trim l := by
+  unfold trim trimEnd trimStart
+  apply List.mem_reverse.1
+  rw [List.reverse_reverse]
+  apply mem_dropWhile isWs c hc
+  apply List.mem_reverse.2
+  exact mem_dropWhile isWs c hc l h
+
+/-- an ASCII byte that is neither a hex digit, nor white space, nor `+` -/
+def badSizeByte (b : UInt8) : Bool :=
+  b.toNat < 0x80 && !isHex (Utf8.byteChar b) && !isWs (Utf8.byteChar b) && b != 43
+
+theorem parseHexUsize_bad (l : List Char) (c : Char) (hm : c ∈ l) (hp : c ≠ '+') (hh : isHex c = false) : parseHexUsize l = none := by
+  have hs : c ∈ stripPlus l := by
+    unfold stripPlus
+    split
+    · rename_i rest
+      rcases List.mem_cons.1 hm with e | e
+      · exact absurd e hp
+      · exact e
+    · exact hm
+  unfold parseHexUsize
+  simp only
+  split
+  · rfl
+  · split
+    · rename_i hall
+      have := List.all_eq_true.1 hall c hs
+      rw [hh] at this; simp at this
+    · rfl
+
+theorem sizeOfLine_bad (dev : Dev) (line : List UInt8) (b : UInt8) (hm : b ∈ sizeField dev line) (hb : badSizeByte b = true) :
+    sizeOfLine dev line = none := by
+  simp only [badSizeByte, Bool.and_eq_true, decide_eq_true_eq, Bool.not_eq_true', bne_iff_ne] at hb
+  obtain ⟨⟨⟨h1, h2⟩, h3⟩, h4⟩ := hb
+  unfold sizeOfLine
+  cases hd : Utf8.decode (sizeField dev line) with
+  | none => rfl
+  | some cs =>
+    simp only
+    have hc := mem_decodeGo b h1 _ 0 0 0 0 cs (by simp) hd hm
+    apply parseHexUsize_bad (trim cs) (Utf8.byteChar b) (mem_trim _ h3 cs hc) _ h2
+    intro h
+    apply h4
+    have : (Utf8.byteChar b).toNat = 43 := by rw [h]; rfl
+    rw [Utf8.toNat_byteChar b h1] at this
+    exact UInt8.toNat_inj.1 (by rw [this]; rfl)
 
 end IQE.Engine.Dechunk
